@@ -165,17 +165,13 @@ impl CacheStrategy {
 }
 
 // ---------------------------------------------------------------- L1b query cache
-pub open spec fn qc_empty() -> Map<int, Set<u64>> { Map::empty() }
-/// `a` is a sub-map of `b` (same as Map::submap_of, but with a single trigger so that it chains)
-pub open spec fn map_le<K, V>(a: Map<K, V>, b: Map<K, V>) -> bool {
-    forall|k: K| #[trigger] a.contains_key(k) ==> b.contains_key(k) && a[k] == b[k]
-}
+// qc_empty / map_le / QueryHashCache::refs: prelude/qc_view_spec.rs (shared with the implication unit implied_qcache)
+//@include qc_view_spec.rs
 #[verifier::external_body]
 pub struct QueryHashCache { _p: core::marker::PhantomData<()> }
 impl QueryHashCache {
     /// cached entries (abstract key) -> doc ids in the cached result
     pub uninterp spec fn view(&self) -> Map<int, Set<u64>>;
-    pub open spec fn refs(&self, d: u64) -> bool { exists|k: int| #[trigger] self@.contains_key(k) && self@[k].contains(d) }
     #[verifier::external_body] pub fn clear(&mut self) ensures final(self)@ == qc_empty() { unimplemented!() }
     #[verifier::external_body] pub fn invalidate_doc(&mut self, d: u64) -> (r: usize)
         ensures map_le(final(self)@, old(self)@), !final(self).refs(d),
@@ -262,9 +258,14 @@ impl HnswBackend {
                 && final(self)@[d].2.digest == spec_digest(e@) && final(self)@.remove(d) == old(self)@.remove(d) { unimplemented!() }
 }
 
+/// capability: this exact vector passed the engine's pre-flight (granted only by normalize_in_place_if_needed Ok; same capability as
+/// in backend_env.rs).  HnswBackend::insert stores its argument bit for bit -- the `final(self)@[d].0 == e@` of the stub above --
+/// only for such a vector (unit implied_cold_tier: wrapper precondition `preflight_ok(e@)`); the call site of TieredEngine::insert
+/// discharges it in unit engine_write_paths (proof fn c03_cold_insert_arg_preflighted)
+pub uninterp spec fn preflight_ok(v: Seq<f32>) -> bool;
 #[verifier::external_body]
 fn normalize_in_place_if_needed(distance: DistanceMetric, embedding: &mut Vec<f32>) -> (r: Result<()>)
-    ensures final(embedding)@.len() == old(embedding)@.len() { unimplemented!() }
+    ensures final(embedding)@.len() == old(embedding)@.len(), r.is_ok() ==> preflight_ok(final(embedding)@) { unimplemented!() }
 
 // ---------------------------------------------------------------- the engine
 //@item engine/src/tiered_engine.rs struct TieredEngine
